@@ -138,8 +138,10 @@ def run_case(case) -> dict:
     from werkzeug.utils import send_file
     from werkzeug.wrappers import Response
 
+    if case.get("op") in ("filesc", "filerange", "etag"):
+        return {"filesc": file_case, "filerange": filerange_case, "etag": etag_case}[case["op"]](case)
     c = norm(case)
-    rec = {"op": "call", "api": c["api"], "method": c["method"], "shape": c["shape"], "length": c["length"]}
+    rec = {"op": c.get("op") or "call", "api": c["api"], "method": c["method"], "shape": c["shape"], "length": c["length"]}
     for h in HDRS:
         rec[h + "_p"] = c[h] is not None
         rec[h] = cps(c[h] or "")
@@ -447,3 +449,378 @@ def case_of_rangebody(v) -> dict:
     else:
         c.update(shape="file" if v["seekable"] else "pipe", block=v["bsize"])
     return c
+
+
+# ---------------------------------------------------------------------------------- growth: Range + validators
+def rangecond_cases(lengths=(0, 1, 4), wide=True):
+    """Range combined with If-None-Match / If-Modified-Since / If-Match (op "rc", clauses RangeCond/..)."""
+    cases = []
+    lm0 = BASE
+    ranges = ["bytes=0-0", "bytes=1-", "bytes=-1", "bytes=9-", "bytes=-0", "bytes=0-9", "bytes=0-0,2-2", "bytes=a-", "items=1-2", "bytes"]
+    if not wide:
+        ranges = ranges[:4] + ranges[6:8]
+    for method in ("GET", "HEAD", "POST") if wide else ("GET", "HEAD"):
+        for et in [None, ("abc", False), ("abc", True)]:
+            for lmk in ([None, 0, 500000] if wide else [None, 500000]):
+                lm = None if lmk is None else [lm0.year, lm0.month, lm0.day, lm0.hour, lm0.minute, lm0.second, lmk]
+                conds = [("inm", t) for t in ["*", '"abc"', 'W/"abc"', '"xyz"', '"xyz", W/"abc"', "abc"]]
+                if et:
+                    conds += [("im", t) for t in ["*", '"abc"', '"xyz"']]
+                ims = [None, fmt_date(lm0 + timedelta(seconds=-1)), fmt_date(lm0), fmt_date(lm0 + timedelta(seconds=1), 60)]
+                for h, t in [(None, None)] + conds:
+                    for d in ims:
+                        if h is None and d is None:
+                            continue
+                        for rg in ranges:
+                            for n in lengths:
+                                for shape, api in (("list", "mc"), ("file", "sf")) if wide else (("list", "mc"),):
+                                    if api == "sf" and et and et[1]:
+                                        continue
+                                    c = {"op": "rc", "api": api, "method": method, "etag": list(et) if et else None, "lm": lm,
+                                         "ims": d, "range": rg, "length": n, "shape": shape, "block": 2}
+                                    if h:
+                                        c[h] = t
+                                    cases.append(c)
+    return cases
+
+
+# ---------------------------------------------------------------------------------- growth: validators from real files
+import os
+import time as _time
+
+FILE_T0 = 1709251198            # 2024-02-29 23:59:58 UTC
+_FILE_DEFAULTS = {"op": "file", "api": "sf", "method": "GET", "inm": None, "im": None, "ims": None, "ifr": None, "range": None}
+
+
+def _utc_tuple(sec: int, us: int):
+    dt = datetime.fromtimestamp(sec, tz=timezone.utc)
+    return [dt.year, dt.month, dt.day, dt.hour, dt.minute, dt.second, us]
+
+
+def _set_file(path, size, mtime_s, mtime_us):
+    with open(path, "wb") as f:
+        f.write(data_of(size))
+    ns = mtime_s * 10 ** 9 + mtime_us * 1000
+    os.utime(path, ns=(ns, ns))
+
+
+def _max_age_arg(mode, n):
+    if mode == "none":
+        return None
+    if mode == "int":
+        return n
+    return lambda path: n
+
+
+def _file_request(root, name, cfg, state, req, prev):
+    """One request against the file root/name in `state` (size, mtime_s, mtime_us); returns the trace line."""
+    from werkzeug.exceptions import HTTPException
+    from werkzeug.middleware.shared_data import SharedDataMiddleware
+    from werkzeug.test import create_environ, run_wsgi_app
+    from werkzeug.utils import send_file, send_from_directory
+
+    path = os.path.join(root, name)
+    size, mtime_s, mtime_us = state
+    r = dict(_FILE_DEFAULTS)
+    r.update(req)
+    api = cfg["api"]
+    env = create_environ("/static/" + name if api == "sdm" else "/", method=r["method"])
+    for h in HDRS:
+        if r[h] is not None:
+            env[ENV[h]] = r[h]
+    given_lm = cfg.get("lm_given")            # (sec, us) or None
+    eff = given_lm if given_lm else (mtime_s, mtime_us)
+    rec = {"op": "file", "api": api, "method": r["method"], "shape": "path", "length": size,
+           "etag_mode": cfg["etag_mode"], "etag_given": cps(cfg.get("etag_given") or ""), "lm_mode": "given" if given_lm else "stat",
+           "lm": _utc_tuple(*eff), "lm_p": True, "len_known": True, "etag_p": False, "etag_opaque": [], "etag_weak": False,
+           "mtime_s": mtime_s, "mtime_us": mtime_us, "max_age_mode": cfg["max_age_mode"], "max_age": cfg.get("max_age") or 0,
+           "conditional": bool(cfg.get("conditional", True)), "xsf": bool(cfg.get("xsf")), "path": cps(path),
+           "prev_p": prev is not None}
+    p = prev or {"etag": [], "etag_n": 0, "lm": [], "size": 0, "mtime_s": 0, "mtime_us": 0}
+    rec.update(prev_etag=p["etag"], prev_etag_n=p["etag_n"], prev_lm=p["lm"], prev_size=p["size"], prev_mtime_s=p["mtime_s"],
+               prev_mtime_us=p["mtime_us"])
+    for h in HDRS:
+        rec[h + "_p"] = r[h] is not None
+        rec[h] = cps(r[h] or "")
+    out = {"status": 0, "exc": "", "body": [], "modified": False}
+    names = (("cr", "Content-Range"), ("cl", "Content-Length"), ("r_etag", "ETag"), ("r_lm", "Last-Modified"), ("cc", "Cache-Control"),
+             ("exp", "Expires"), ("xsf", "X-Sendfile"))
+    for key, _ in names:
+        out[key + "_n"] = 0
+        out[key if key != "xsf" else "xsf_v"] = []
+    rec["t_before"] = int(_time.time())
+    try:
+        if api == "sdm":
+            app = SharedDataMiddleware(lambda e, s: (s("404 NOT FOUND", []), [b""])[1], {"/static": root},
+                                       cache=True, cache_timeout=cfg.get("max_age") or 0)
+            target = app
+        else:
+            kw = {"etag": {"auto": True, "off": False, "given": cfg.get("etag_given")}[cfg["etag_mode"]],
+                  "max_age": _max_age_arg(cfg["max_age_mode"], cfg.get("max_age") or 0),
+                  "conditional": rec["conditional"], "use_x_sendfile": rec["xsf"]}
+            if given_lm:
+                kw["last_modified"] = given_lm[0] + given_lm[1] / 1e6
+            if api == "sfd":
+                target = send_from_directory(root, name, env, **kw)
+            else:
+                target = send_file(path, env, **kw)
+        app_iter, status, headers = run_wsgi_app(target, env, buffered=False)
+        try:
+            body = b"".join(app_iter)
+        finally:
+            close = getattr(app_iter, "close", None)
+            if close:
+                close()
+        out["status"] = int(status.split(" ", 1)[0])
+        out["body"] = list(body)
+        for key, hname in names:
+            vals = headers.getlist(hname)
+            out[key + "_n"] = len(vals)
+            out[key if key != "xsf" else "xsf_v"] = cps(vals[0]) if vals else []
+    except HTTPException as e:
+        out["status"] = int(e.code or 0)
+        out["exc"] = type(e).__name__
+    except Exception as e:
+        out["exc"] = type(e).__name__
+    rec["t_after"] = int(_time.time()) + 1
+    rec.update(out)
+    return rec
+
+
+CHANGES = ("none", "size", "mtime+1s", "mtime+0.5s-same-second", "mtime+0.5s-next-second", "size+mtime")
+
+
+def _changed(state, change):
+    size, s, us = state
+    if change == "none":
+        return state
+    if change == "size":
+        return (size + 1, s, us)
+    if change == "mtime+1s":
+        return (size, s + 1, us)
+    if change == "mtime+0.5s-same-second":      # half a second inside the same second (backwards if necessary)
+        return (size, s, us + 500000) if us < 500000 else (size, s, us - 500000)
+    if change == "mtime+0.5s-next-second":      # at most half a second later, across the second boundary
+        return (size, s + 1, us - 500000) if us >= 500000 else (size, s + 1, 0)
+    return (size + 2, s + 3600, us)
+
+
+def file_scenario(sc, root):
+    """sc = {cfg, size, us, change, sent ('inm'|'ims'|'both'), method}: first response, then the request carrying
+    its validators against the (possibly changed) file.  Returns the trace lines."""
+    cfg = sc["cfg"]
+    name = sc.get("name", "data.bin")
+    path = os.path.join(root, name)
+    st0 = (sc["size"], FILE_T0, sc["us"])
+    _set_file(path, *st0)
+    l1 = _file_request(root, name, cfg, st0, {"method": "GET"}, None)
+    prev = {"etag": l1["r_etag"], "etag_n": l1["r_etag_n"], "lm": l1["r_lm"], "size": st0[0], "mtime_s": st0[1], "mtime_us": st0[2]}
+    st1 = _changed(st0, sc["change"])
+    _set_file(path, *st1)
+    req = {"method": sc.get("method", "GET")}
+    txt = lambda cp: "".join(map(chr, cp))
+    if sc["sent"] in ("inm", "both") and l1["r_etag_n"]:
+        req["inm"] = txt(l1["r_etag"])
+    if sc["sent"] in ("ims", "both") and l1["r_lm_n"]:
+        req["ims"] = txt(l1["r_lm"])
+    if sc.get("range"):
+        req["range"] = sc["range"]
+    l2 = _file_request(root, name, cfg, st1, req, prev)
+    return [l1, l2]
+
+
+def file_range_lines(root, max_len, apis=("sf", "sfd")):
+    """Every range spec of the grammar against real files of length 0..max_len (send_file / send_from_directory)."""
+    lines = []
+    cfg0 = {"etag_mode": "auto", "max_age_mode": "none"}
+    for n in range(0, max_len + 1):
+        name = f"r{n}.bin"
+        st = (n, FILE_T0, 250000)
+        _set_file(os.path.join(root, name), *st)
+        for k, rg in enumerate([None] + range_texts(n)):
+            api = apis[k % len(apis)]
+            method = "HEAD" if k % 7 == 3 else "POST" if k % 11 == 5 else "GET"
+            lines.append(_file_request(root, name, dict(cfg0, api=api), st, {"method": method, "range": rg}, None))
+    return lines
+
+
+def file_scenarios(wide=True):
+    scs = []
+    cfgs = []
+    for api in ("sf", "sfd", "sdm"):
+        for etag_mode in (("auto", "off", "given") if api != "sdm" else ("auto",)):
+            for mam, ma in (("none", 0), ("int", 60), ("int", 0), ("callable", 3600)) if api != "sdm" else (("int", 43200), ("int", 0)):
+                for lm_given in ((None, (FILE_T0 - 86400, 500000)) if api != "sdm" and wide else (None,)):
+                    cfgs.append({"api": api, "etag_mode": etag_mode, "etag_given": "v-1", "max_age_mode": mam, "max_age": ma,
+                                 "lm_given": lm_given})
+    for cfg in cfgs:
+        for change in CHANGES:
+            for sent in ("inm", "ims", "both"):
+                if sent == "inm" and cfg["etag_mode"] == "off":
+                    continue
+                for us in ((250000, 750000, 0) if wide else (750000,)):
+                    for method in (("GET", "HEAD") if wide else ("GET",)):
+                        scs.append({"cfg": cfg, "size": 3, "us": us, "change": change, "sent": sent, "method": method})
+    # conditional off / x-sendfile / range carried with validators
+    for api in ("sf", "sfd"):
+        base = {"api": api, "etag_mode": "auto", "max_age_mode": "none"}
+        for change in ("none", "mtime+1s"):
+            for sent in ("inm", "ims", "both"):
+                scs.append({"cfg": dict(base, conditional=False), "size": 4, "us": 0, "change": change, "sent": sent, "range": "bytes=1-2"})
+                scs.append({"cfg": dict(base, xsf=True), "size": 4, "us": 0, "change": change, "sent": sent})
+                for rg in ("bytes=1-2", "bytes=-1", "bytes=9-", "bytes=0-0,2-2"):
+                    scs.append({"cfg": base, "size": 4, "us": 250000, "change": change, "sent": sent, "range": rg})
+    return scs
+
+
+def run_file_scenarios(scs):
+    """Execute scenarios in a private temporary tree; returns lists of lines (one list per scenario)."""
+    import tempfile
+
+    out = []
+    with tempfile.TemporaryDirectory(prefix="verif-c11-files-") as root:
+        for sc in scs:
+            out.append(file_scenario(sc, root))
+    return out
+
+
+def run_file_ranges(max_len):
+    import tempfile
+
+    with tempfile.TemporaryDirectory(prefix="verif-c11-files-") as root:
+        return file_range_lines(root, max_len)
+
+
+def file_case(sc):
+    """One judged line per scenario: the request that carries the first response's validators
+    (or, with first=True, the first response itself)."""
+    import tempfile
+
+    with tempfile.TemporaryDirectory(prefix="verif-c11-files-") as root:
+        l1, l2 = file_scenario(sc, root)
+    return l1 if sc.get("first") else l2
+
+
+def filerange_case(c):
+    import tempfile
+
+    with tempfile.TemporaryDirectory(prefix="verif-c11-files-") as root:
+        st = (c["length"], FILE_T0, 250000)
+        _set_file(os.path.join(root, "r.bin"), *st)
+        return _file_request(root, "r.bin", {"api": c["api"], "etag_mode": "auto", "max_age_mode": "none"}, st,
+                             {"method": c["method"], "range": c["range"]}, None)
+
+
+def filerange_cases(max_len, apis=("sf", "sfd")):
+    cases = []
+    for n in range(0, max_len + 1):
+        for k, rg in enumerate([None] + range_texts(n)):
+            cases.append({"op": "filerange", "api": apis[k % len(apis)], "length": n, "range": rg,
+                          "method": "HEAD" if k % 7 == 3 else "POST" if k % 11 == 5 else "GET"})
+    return cases
+
+
+def filesc_cases(wide=True):
+    scs = file_scenarios(wide)
+    out = [dict(sc, op="filesc") for sc in scs]
+    seen = set()
+    for sc in scs:                     # the first responses, once per configuration
+        k = repr((sorted(sc["cfg"].items(), key=str), sc["us"]))
+        if k not in seen:
+            seen.add(k)
+            out.append(dict(sc, op="filesc", first=True, change="none"))
+    return out
+
+
+# ---------------------------------------------------------------------------------- growth: add_etag / set_etag / get_etag / freeze
+def _chunks(data: bytes, cuts):
+    out, p = [], 0
+    for n in cuts:
+        out.append(data[p:p + n])
+        p += n
+    out.append(data[p:])
+    return out
+
+
+def etag_case(c):
+    """c = {via, weak, overwrite, preset, body1, body2 (lists of ints), cuts1, cuts2, given1, given2, gen}."""
+    from werkzeug.test import create_environ, run_wsgi_app
+    from werkzeug.wrappers import Response
+
+    rec = {"op": "etag", "api": "mc", "via": c["via"], "weak": bool(c.get("weak")), "overwrite": bool(c.get("overwrite")),
+           "preset": bool(c.get("preset")), "body1": list(c["body1"]), "body2": list(c["body2"]),
+           "given1": cps(c.get("given1") or ""), "given2": cps(c.get("given2") or ""),
+           "tag1": [], "tag2": [], "get1_none": True, "get1_opaque": [], "get1_weak": False, "status_inm": 0, "status_im": 0,
+           "out_inm": [], "exc": "", "status": 0}
+
+    def build(body, cuts, given):
+        parts = _chunks(bytes(body), cuts)
+        r = Response((p for p in parts) if c.get("gen") else parts, mimetype="application/octet-stream")
+        if c.get("preset"):
+            r.set_etag("preset")
+        if c["via"] == "add_etag":
+            r.add_etag(overwrite=bool(c.get("overwrite")), weak=bool(c.get("weak")))
+        elif c["via"] == "freeze":
+            r.freeze()
+        else:
+            r.set_etag(given, weak=bool(c.get("weak")))
+        return r
+
+    try:
+        r1 = build(c["body1"], c.get("cuts1") or [], c.get("given1") or "")
+        rec["tag1"] = cps(r1.headers.get("ETag", ""))
+        g = r1.get_etag()
+        rec["get1_none"] = g[0] is None
+        rec["get1_opaque"] = cps(g[0] or "")
+        rec["get1_weak"] = bool(g[1])
+        for hdr, key in (("HTTP_IF_NONE_MATCH", "status_inm"), ("HTTP_IF_MATCH", "status_im")):
+            r2 = build(c["body2"], c.get("cuts2") or [], c.get("given2") or "")
+            rec["tag2"] = cps(r2.headers.get("ETag", ""))
+            env = create_environ("/", method="GET")
+            env[hdr] = r1.headers.get("ETag", "")
+            r2.make_conditional(env)
+            app_iter, status, headers = run_wsgi_app(r2, env, buffered=False)
+            body = b"".join(app_iter)
+            getattr(app_iter, "close", lambda: None)()
+            rec[key] = int(status.split(" ", 1)[0])
+            if key == "status_inm":
+                rec["out_inm"] = list(body)
+        rec["status"] = rec["status_inm"]
+    except Exception as e:
+        rec["exc"] = type(e).__name__
+    return rec
+
+
+def etag_cases(wide=True, rng=None):
+    bodies = [[], [97], [97, 98], [98, 97], [97, 98, 99, 100], [97, 98, 99, 101], [0], [0, 0], [255, 254, 10, 13]]
+    if not wide:
+        bodies = bodies[:6]
+    cases = []
+    for via in ("add_etag", "freeze", "set_etag"):
+        for weak in (False, True):
+            if via == "freeze" and weak:
+                continue
+            for preset in (False, True):
+                for overwrite in ((False, True) if via == "add_etag" and preset else (False,)):
+                    if via == "set_etag" and preset and not wide:
+                        continue
+                    for b1 in bodies:
+                        for b2 in bodies:
+                            if not wide and b1 != b2 and (len(b1) + len(b2)) % 2:
+                                continue
+                            for cuts in ([[], [1], [0, 1]] if wide else [[1]]):
+                                for g1, g2 in ((("v1", "v1"), ("v1", "v2"), ("a,b", "a,b")) if via == "set_etag" else ((None, None),)):
+                                    cases.append({"op": "etag", "via": via, "weak": weak, "preset": preset, "overwrite": overwrite,
+                                                  "body1": b1, "body2": b2, "cuts1": [], "cuts2": [k for k in cuts if k <= len(b2)],
+                                                  "given1": g1, "given2": g2, "gen": len(cuts) == 2})
+    if rng is not None:
+        for _ in range(2000 if wide else 200):
+            n = rng.randint(0, 12)
+            b1 = [rng.randint(0, 255) for _ in range(n)]
+            b2 = list(b1)
+            if rng.random() < 0.5 and n:
+                b2[rng.randrange(n)] ^= 1 << rng.randrange(8)
+            cases.append({"op": "etag", "via": rng.choice(["add_etag", "freeze"]), "weak": False, "preset": False, "overwrite": False,
+                          "body1": b1, "body2": b2, "cuts1": sorted(rng.sample(range(n + 1), min(2, n + 1)))[:1],
+                          "cuts2": [rng.randint(0, n)], "gen": rng.random() < 0.5})
+    return cases
